@@ -69,7 +69,7 @@ class World:
             return ["callable", dumper_battery(fn, op["t"])], fn, None
         if kind == "get_converter":
             src, dst, _ = pools.CONVERTERS[op["conv"]]
-            out, fn = outcome(self.handles[op["h"]].get_converter, src, dst)
+            out, fn = outcome(_get_converter, self.handles[op["h"]], src, dst, op.get("rcp"))
             self.callables.append((fn if out[0] == "ok" else None, self.ref_desc(op)))
             if out[0] != "ok":
                 return out, None, None
@@ -77,7 +77,7 @@ class World:
         if kind == "convert":
             _, dst, _ = pools.CONVERTERS[op["conv"]]
             arg = pools.obj(op["o"])
-            out, res = outcome(self.handles[op["h"]].convert, arg, dst)
+            out, res = outcome(_convert, self.handles[op["h"]], arg, dst, op.get("rcp"))
             return out, res, arg
         if kind == "call":
             fn, tmpl = self.callables[op["c"]]
@@ -106,6 +106,19 @@ class World:
             gc.collect()
             return ["done"], None, None
         raise ValueError(op)
+
+
+def _get_converter(retort, src, dst, rcp):
+    """rcp: name of a per-call recipe (get_converter(..., recipe=[...])) or None"""
+    if rcp is None:
+        return retort.get_converter(src, dst)
+    return retort.get_converter(src, dst, recipe=pools.CONV_RECIPES[rcp]())
+
+
+def _convert(retort, arg, dst, rcp):
+    if rcp is None:
+        return retort.convert(arg, dst)
+    return retort.convert(arg, dst, recipe=pools.CONV_RECIPES[rcp]())
 
 
 def loader_battery(fn, tname):
@@ -141,14 +154,14 @@ def compute_ref(desc):
         return out if out[0] != "ok" else ["callable", dumper_battery(fn, desc["t"])]
     if kind == "get_converter":
         src, dst, _ = pools.CONVERTERS[desc["conv"]]
-        out, fn = outcome(retort.get_converter, src, dst)
+        out, fn = outcome(_get_converter, retort, src, dst, desc.get("rcp"))
         return out if out[0] != "ok" else ["callable", converter_battery(fn, desc["conv"])]
     if kind == "convert":
         _, dst, _ = pools.CONVERTERS[desc["conv"]]
-        return outcome(retort.convert, pools.obj(desc["o"]), dst)[0]
+        return outcome(_convert, retort, pools.obj(desc["o"]), dst, desc.get("rcp"))[0]
     if kind == "convert_call":
         src, dst, _ = pools.CONVERTERS[desc["conv"]]
-        out, fn = outcome(retort.get_converter, src, dst)
+        out, fn = outcome(_get_converter, retort, src, dst, desc.get("rcp"))
         if out[0] != "ok":
             return ["skipped"]
         return outcome(fn, pools.obj(desc["o"]))[0]
